@@ -639,6 +639,45 @@ theorem elab_rejects_rvalue_out_arg_chain_partial {Γ : Env} {dbg : Bool} {name 
     exact ⟨i, p, τ, hp, hti, hio, chain_members_rvalue names base b0 τ0 _ hb hv he⟩
 
 
+/-! ## the rejection classes of the property, by name -/
+
+/-- **Writes to const expressions are never accepted** (assignment family and `++` / `--`), whatever expression of the
+    extended language the target is, as soon as the type checker computes a const type for it.  (For which targets it does:
+    `elab_rejects_const_write_chain`, `elab_rejects_const_array_write_chain`; for which it does not although the object is
+    declared const: `const_struct_member_write_accepted`, `const_array_assignment_accepted`.) -/
+theorem elab_rejects_const_write {Γ : Env} {dbg : Bool} {a : SExpr} {a' : IExpr} {τa : ETy}
+    (ha : elabE dbg Γ a = .ok (a', τa)) (hc : τa.ty.mod.isConst = true) :
+    (∀ (o : BinOp) (b : SExpr), o.cls = .assign → ∀ r, elabE dbg Γ (.bin o a b) ≠ .ok r) ∧
+    (∀ (o : UnOp), (o = .prefixIncrement ∨ o = .prefixDecrement ∨ o = .postfixIncrement ∨ o = .postfixDecrement) →
+      ∀ r, elabE dbg Γ (.un o a) ≠ .ok r) :=
+  ⟨fun _ _ ho => elab_rejects_assign_to_const ho ha hc, fun _ ho => elab_rejects_increment ho ha (Or.inr hc)⟩
+
+/-- **Writes to non-lvalue expressions are never accepted** (same two forms) -/
+theorem elab_rejects_rvalue_write {Γ : Env} {dbg : Bool} {a : SExpr} {a' : IExpr} {τa : ETy}
+    (ha : elabE dbg Γ a = .ok (a', τa)) (hv : τa.vt = .rvalue) :
+    (∀ (o : BinOp) (b : SExpr), o.cls = .assign → ∀ r, elabE dbg Γ (.bin o a b) ≠ .ok r) ∧
+    (∀ (o : UnOp), (o = .prefixIncrement ∨ o = .prefixDecrement ∨ o = .postfixIncrement ∨ o = .postfixDecrement) →
+      ∀ r, elabE dbg Γ (.un o a) ≠ .ok r) :=
+  ⟨fun _ _ ho => elab_rejects_assign_to_rvalue ho ha hv, fun _ ho => elab_rejects_increment ho ha (Or.inl hv)⟩
+
+/-- **Non-lvalue or const expressions are never passed to `out` / `inout` parameters** (user and intrinsic functions) -/
+theorem elab_rejects_rvalue_out_arg {Γ : Env} {dbg : Bool} {name : Nat} {args : SArgs} {args' : IArgs} {ts : List ETy}
+    (ha : elabArgs dbg Γ args = .ok (args', ts))
+    (hn : ∀ c ∈ candidates Γ name, ∃ (i : Nat) (p : Param) (a : ETy), c.params[i]? = some p ∧ ts[i]? = some a ∧
+      p.io.needsLvalue = true ∧ (a.vt = .rvalue ∨ (a.ty.mod.isConst = true ∧ p.ty.mod.isConst = false))) :
+    ∀ r, elabE dbg Γ (.call name args) ≠ .ok r :=
+  elab_rejects_unconvertible ha fun c hc => by
+    obtain ⟨i, p, a, hp, hta, hio, hor⟩ := hn c hc
+    refine ⟨i, p, a, hp, hta, ?_⟩
+    rcases hor with hv | ⟨hca, hcp⟩
+    · exact RsslVerif.Thm.C03.find_rejects_rvalue_to_lvalue a p.ety hv (by simp [Param.ety, hio])
+    · obtain ⟨r, hr⟩ := RsslVerif.Lemmas.Conv.find_no_panic a p.ety
+      cases r with
+      | none => exact hr
+      | some c' =>
+        exact absurd hr (RsslVerif.Thm.C03.find_keeps_const (by simp [Param.ety, hio])
+          (Or.inl ⟨hca, by simpa [Param.ety] using hcp⟩) c')
+
 /-! ## intrinsic functions -/
 
 theorem selected_is_cand {cands : List Cand} {args : List ETy} {i : Nat}
